@@ -88,8 +88,14 @@ CarrySt(P) ==
 \* the keys the carry is observed to have moved: they are in the main table of the final state F
 InsMv(P, F, k) == (K1(F.M) \ {k}) \cap K1(CarrySt(P).O)
 \* ... limited to what one carry moves (a chain may contain several key-adding steps)
+\* (if fewer than that are in the final main table, a later step of the same call grew the table again and
+\* sent them back to a new old table; growth only happens once the old table is gone, so everything had
+\* been moved by then and any choice will do: fill up with other old-table keys)
 InsMvN(P, F, k) ==
-    LET C == CarrySt(P) IN FirstN(InsMv(P, F, k), MinI(RR, MinI(C.cN, Cardinality(C.cur))))
+    LET C == CarrySt(P)
+        n == MinI(RR, MinI(C.cN, Cardinality(C.cur)))
+        first == FirstN(InsMv(P, F, k), n)
+    IN first \cup FirstN(K1(C.O) \ first, n - Cardinality(first))
 InsertNewPosts(P, k, mv) ==
     {G(P)!InsertNew_Post(k, 0, mv, ru) : ru \in {x \in RuS : G(P)!InsertNew_En(k, 0, mv, x)}}
 OverwriteOldPosts(P, k, mv) ==
